@@ -10,7 +10,7 @@ from capi import Lib
 from vlib import Oracle, build_lib
 
 PID = "c03"
-THEOREMS = None
+THEOREMS = ['C03_roundtrip', 'C03_lossless_partial', 'C03_compressFrame_roundtrip', 'C03_history_extension']
 ORACLES = ["framec"]
 CORRESPONDENCE = [
     "FrameC model == LZ4F_compressBegin*/compressUpdate/uncompressedUpdate/flush/compressEnd (return value and every output byte of every call)",
